@@ -421,4 +421,6 @@ def run(ctx, progs):
         r7_address_subtraction(ctx, P)
         from . import c14
         c14.r5_claimed_is_not_alloc_failure(ctx, P, R="C07.R8")
+        from . import c02
+        c02.r2_overlap(ctx, P, R="C07.R9")
     ctx.config = None
